@@ -26,7 +26,11 @@ MANIFEST = {
             "either sign occurs), filled densely with a jittered 6x6x6 (thorough also 8x8x8) fractional lattice, as generated and "
             "with every atom pushed to another image, cutoff in {0.35, 0.433, 0.5} (thorough +0.25) x smallest width, i.e. the "
             "regime cutoff in (width/3, width/2] where the code uses 3 voxels across the cell; thorough also the 6x6x6 fill in "
-            "every ordinary menu cell x cutoff in "
+            "every ordinary menu cell; WITHOUT a cell additionally the anisotropic voxel regimes: extents (m_k + f_k) x cutoff "
+            "with every m in {1,2,3}^3 (thorough {1..4}^3) x every f in {0.2, 0.7}^3 (voxel larger / smaller than the cutoff, "
+            "independently for x, y, z, all axis permutations), two corner atoms pinning the extent and, for every axis, every "
+            "voxel boundary and every separation in {0.8, 0.9, 0.99, 1.01} x cutoff, a pair straddling that boundary with tiny "
+            "lateral offsets, listed in both index orders; thorough also a jittered lattice of spacing 0.45 x cutoff x cutoff in "
             "{0.05, 0.25, 0.5} x smallest cell width x n in {1,2,3,8,64} x position designs {4x4x4 fractional lattice + "
             "low-discrepancy jitter as generated / wrapped into the brick cell / every atom in a different image of "
             "{-2..2}^3; points exactly on and +-1e-4 around multiples of the voxel edge neighborlist.cpp derives for "
@@ -63,7 +67,7 @@ NS = (1, 2, 3, 8, 64)
 SUBSETS = ("all/all", "one/all", "disjoint", "overlap")
 DESIGNS_P = ("lattice", "lattice-brick", "lattice-images", "voxel", "voxel-brick", "voxel-images",
              "cluster-centre", "cluster-corner-brick", "cluster-corner-raw")
-DESIGNS_O = ("lattice", "voxel-open", "cluster")
+DESIGNS_O = ("lattice", "voxel-open", "cluster")       # plus "aniso" / "aniso-dense", generated per configuration
 FRAME_SCALE = (1.0, 1.25)
 C_TOL = 16          # |compute_distances - oracle| <= C_TOL * eps32 * S, S = largest coordinate / cell-vector magnitude
 
@@ -183,6 +187,14 @@ def cases(quick):
         if cell is not None and not quick:
             for cf in (0.25, 0.5):
                 out.append((ci, cf, 216, "dense", 0, 1))
+        if cell is None:                 # anisotropic voxel regimes without a cell: one item per (m, f) configuration
+            cut = _cutoff(menu[1], 0.25)
+            for v, cfg in enumerate(nd.aniso_configs(quick)):
+                out.append((ci, 0.25, len(nd.aniso_points(cfg, cut, 0)), "aniso", v, v + 1))
+            if not quick:                # dense lattice fill (spacing ~0.45 cutoff) for m a permutation of (1, 2, 3)
+                for v, cfg in enumerate(nd.aniso_configs(False)):
+                    if sorted(cfg[0]) == [1, 2, 3]:
+                        out.append((ci, 0.25, 0, "aniso-dense", v, v + 1))
     return out
 
 
@@ -207,7 +219,17 @@ def _build(case, quick, seed):
     for variant in range(v0, v1):
         for f in (0, 1):
             V = gen["vectors"] * FRAME_SCALE[f]
-            if design.startswith("dense"):
+            if design == "aniso":
+                x = nd.aniso_points(nd.aniso_configs(quick)[variant], cutoff, f)
+            elif design == "aniso-dense":
+                m_, f_ = nd.aniso_configs(False)[variant]
+                E = np.array([(a + b) * cutoff for a, b in zip(m_, f_)])
+                ax = [np.linspace(0, E[k], int(np.ceil(E[k] / (0.45 * cutoff))) + 1) for k in range(3)]
+                x = np.array(np.meshgrid(*ax, indexing="ij")).reshape(3, -1).T
+                jit = grids.jitter(len(x) * (f + 1), 3, 0.2 * cutoff, seed)[len(x) * f:]
+                x = np.clip(x + jit, 0, E)
+                x[0], x[-1] = 0.0, E
+            elif design.startswith("dense"):
                 x = nd.dense_frac(int(round(n ** (1 / 3.0))), seed, f) @ V
                 if design == "dense-images":
                     x = x + nd.image_shifts(n, f) @ V
@@ -324,6 +346,7 @@ def run_case(arg):
     import mdtraj as md
     ci, cf, n, design, v0, v1 = case
     xyz, lengths, angles, cutoff, cell, keys = _build(case, quick, seed)
+    n = xyz.shape[1]
     st = dict(evals=0, excluded=0, nontrivial=[], nt_open=0, err=0.0, abserr=0.0, pairs_in=0, pairs_out=0,
               straddling_in=0, frames=len(keys), sample=None, inbrick=0, outside=0, atface=0, zshared=0)
     recs = []
